@@ -87,6 +87,16 @@ def cutoff(ex, s):
     t = min(due) if due else getattr(s, 't_open', 0) + ex.I + ex.T
     # a read that has been waiting for I+T may time out (and end the session) at that moment;
     # with overlapping reads which of them is served first is unspecified
+    # the reader of an established WebSocket gives up I+T after the last frame it was sent
+    # (PONGs that travel in POST bodies do not count for it)
+    for conn in (s.open_conn, s.main_ws):
+        if conn is None or not conn.accepted:
+            continue
+        last = conn.t_start
+        for e in s.client_sent:
+            if e.get('via') == 'ws' and e.get('conn') is conn:
+                last = max(last, e['t'])
+        t = min(t, last + ex.I + ex.T)
     for r in ex.world.reqs:
         if getattr(r, 'sess', None) is s and r.method == 'GET':
             end = r.t_end if r.done else ex.now
@@ -112,7 +122,8 @@ def extract(ex, obs):
         out['sessions'][s.ord] = {'cutoff': co, 'events': evs, 'delivered': delivered,
                                   'accepted': s.expect_accept,
                                   'overlapping_polls': any(getattr(p, '_overlaps', 0)
-                                                           for p in s.polls)}
+                                                           for p in s.polls) or
+                                  bool(getattr(s, 'pongs_unsolicited', []))}
     for r in ex.world.reqs:
         role = getattr(r, 'role', None)
         sess = getattr(r, 'sess', None)
@@ -152,7 +163,9 @@ def compare(a, b, actions):
         db = [(tag, via) for t, tag, via in sb['delivered'] if t < co]
         if sa.get('overlapping_polls') or sb.get('overlapping_polls'):
             # with two polls pending at once it is unspecified which of them a packet goes to
-            # (and so what a later poll still finds): the events above are still compared
+            # (and so what a later poll still finds); an unsolicited PONG starts a second PING
+            # timer, and whether two PINGs of the same instant share a poll answer is
+            # unspecified too: the events above are still compared
             da = db = None
         if da != db:
             raise V('delivered-messages-differ', 'order-or-transport' if sorted(map(str, da)) ==
